@@ -104,6 +104,20 @@ CHECKS['C01'] = {
     ],
 }
 
+CHECKS['C02'] = {
+    'level': 'exploration',
+    'technique': 'structure-aware fuzzing of every parser entry point under ASan/UBSan with an allocation meter (bytes requested vs input size), CPU-time watchdog and destroy/reuse-after-failure checks; boundary-value word substitution, truncation, type swaps, record duplication, deep nesting; gateway input paths fed in generated segmentations',
+    'level_text': ('Generated hostile-input search: valid encodings from the Message generator are mutated at the offsets of their length/count/type/magic words with the boundary table of the property, truncated inside and after every word, and mixed with arbitrary bytes; '
+                   'each input goes to the C++ parser, the templated parser, the mini and micro C parsers and (second target) every gateway input path. Oracle: no sanitizer report, no abort, CPU budget, requested allocation <= 64*N+64KiB for the Message parsers, object reusable after failure, accepted objects survive walk/re-flatten/print. Held = none of these fired on everything generated.'),
+    'level_note': 'Trusted: ASan/UBSan as the memory-safety and UB oracle (one UBSan bounds exemption for the documented String small-buffer layout); the allocation meter counts requested bytes through wrapped malloc/realloc/calloc and replaced operator new. Nesting depth is capped at 1000 in generated inputs while known finding F7 (unbounded recursion) stands.',
+    'rule': ('Byte-decoded cases: parser selector x input source (mutated valid encoding 13/16, valid encoding, raw bytes behind a valid magic, deep nesting) x 1..4 mutations. Non-trivial: the input passes the first gate of its parser (valid magic and non-zero field count, i.e. field parsing is reached; for the templated parser: non-empty payload against a generated template). Distinct: hash of the input bytes and parser selector.'),
+    'assumptions': ['gateways are held to memory-safety/termination only; the allocation clause is stated for the Message parsers'],
+    'targets': [
+        {'name': 'c02_parsers', 'src': ['harness/C02_parsers.cpp'], 'ccodecs': True, 'meter': True, 'quick_n': 1200000, 'thorough_n': 16000000, 'maxlen': 500, 'min_nontrivial': 50000, 'timeout_is_violation': True, 'budget': 8,
+         'class_floors': {'entry_cpp': 50000, 'entry_mini': 50000, 'entry_micro': 50000, 'entry_templated': 30000, 'reached_field_parsing': 100000, 'cpp_accepted': 5000, 'cpp_rejected': 20000}},
+    ],
+}
+
 
 def setup():
     t0 = time.time()
